@@ -271,6 +271,13 @@ def project(path):
             if n == 'std::mem::forget' and len(a) >= 1:
                 add('FORGET', ev, val=a[-1])
                 continue
+            if n == 'std::mem::ManuallyDrop::new' and len(a) == 1 and not any(
+                    x.kind == 'call' and x.name in ('std::mem::ManuallyDrop::drop', 'std::mem::ManuallyDrop::into_inner', 'std::mem::ManuallyDrop::take')
+                    for x in path.events):
+                # `let d = ManuallyDrop::new(d)`: the value is never dropped by this function - `forget(d)` that keeps the bits usable
+                add('CALL', ev, callee=n, args=a, res=ev.val)
+                add('FORGET', ev, val=a[-1], how='ManuallyDrop')
+                continue
             if n in ('std::ops::Deref::deref', 'std::ops::DerefMut::deref_mut') and ev.val[0] == 'ci':
                 continue  # plumbing
             if n.startswith(VD) and a:
